@@ -165,7 +165,12 @@ def sigfn(prop, cls, small):
         small = small[: r[2] + 1]  # the history up to (and including) the failing backward
     # what had to happen after the clearing for the failure to manifest identifies the family: on the unchanged tree
     # it takes an in-place mutation (M) AND a re-use (U) of tensors of the cleared graph, which refills a consumer set
-    return f"{prop}|{cls}|after-clear:{after_clear_classes(small)}"
+    ac = after_clear_classes(small)
+    if cls.endswith(":const-input") and "M" in ac.split(","):
+        # a *constant* input that was mutated: no consumer-set check exists for constants, so a re-use (U) adds nothing;
+        # whether the history also re-uses old tensors (to build L after the clearing) does not distinguish the defect
+        ac = "M"
+    return f"{prop}|{cls}|after-clear:{ac}"
 
 
 def nontrivial(prog):
@@ -252,13 +257,13 @@ def direct_histories(only=None):
     from mygrad.errors import InvalidBackprop
 
     out = []
-    for shared, boundary, mut, reuse in itertools.product(("intermediate", "leaf", "ndarray", "constant-tensor"), ("back", "clear"),
-            ("out-constant-true", "out-constant-false", "raw-data-write", "noautodiff-imul", "noautodiff-setitem", "none"),
-            (False, True)):
-        name = f"{shared}|{boundary}|{mut}|{'reuse' if reuse else 'no-reuse'}"
+    for shared, boundary, mut, reuse, view in itertools.product(("intermediate", "leaf", "ndarray", "constant-tensor"), ("back", "clear"),
+            ("out-constant-true", "out-constant-false", "tracked-imul", "raw-data-write", "noautodiff-imul", "noautodiff-setitem", "none"),
+            ("no-reuse", "reuse", "failing-reuse"), ("no-view", "dropped-view")):
+        name = f"{shared}|{boundary}|{mut}|{reuse}|{view}"
         if only is not None and name != only:
             continue
-        if shared in ("ndarray", "constant-tensor") and mut.startswith("out-constant") and shared == "ndarray":
+        if shared == "ndarray" and (mut.startswith("out-constant") or mut == "tracked-imul" or view == "dropped-view"):
             continue
         gc.collect()
         x = mg.tensor([2.0, 3.0, -1.5])
@@ -272,18 +277,22 @@ def direct_histories(only=None):
         else:
             y = mg.tensor([2.0, 3.0, -1.5], constant=True)
         y0 = np.array(y if isinstance(y, np.ndarray) else y.data)
+        vw = y[:2] if view == "dropped-view" else None  # a view of the shared tensor, alive when L1's graph is cleared
         L1 = (y * 2.0 * x).sum()
         L2 = (w * y).sum()
         if boundary == "back":
             L1.backward()
         else:
             L1.clear_graph()
+        del vw
         mut_exc = None
         try:
             if mut == "out-constant-true":
                 mg.multiply(y, 10.0, out=y, constant=True)
             elif mut == "out-constant-false":
                 mg.multiply(y, 10.0, out=y, constant=False)
+            elif mut == "tracked-imul":
+                y *= 10.0
             elif mut == "raw-data-write":
                 (y if isinstance(y, np.ndarray) else y.data)[...] = 7.0
             elif mut == "noautodiff-imul":
@@ -297,9 +306,14 @@ def direct_histories(only=None):
                     y[...] = 7.0
         except Exception as e:
             mut_exc = type(e).__name__
-        if reuse:
+        if reuse == "reuse":
             try:
                 _r = y + 1.0
+            except Exception:
+                pass
+        elif reuse == "failing-reuse":
+            try:
+                _r = y + np.ones(7)  # a statement on the shared tensor that raises: it must not count as a use
             except Exception:
                 pass
         try:
@@ -320,8 +334,8 @@ def direct_histories(only=None):
 def direct_sig(name, cls):
     """family signature of a failing direct history: a tracked in-place update of the shared tensor followed by a re-use
     is the recorded after-clear:M,U family; a tracked in-place update of a shared *constant* tensor the const-input one"""
-    shared, boundary, mut, reuse = name.split("|")
-    if cls == "stale-values-used" and mut.startswith("out-constant"):
+    shared, boundary, mut, reuse, view = name.split("|")
+    if cls == "stale-values-used" and (mut.startswith("out-constant") or mut == "tracked-imul"):
         if shared == "constant-tensor":
             return "C09|stale-values-used:const-input|after-clear:M"
         if reuse == "reuse":
@@ -344,7 +358,7 @@ def run(ctx: Ctx) -> Outcome:
     engcheck.report(out, tres, "C09", oracle, sigfn=sigfn, per_class=10 ** 6)
     seen_d = {v.signature for v in out.violations}
     dh = direct_histories()
-    out.evaluations += 4 * 2 * 6 * 2
+    out.evaluations += 4 * 2 * 7 * 3 * 2
     out.stats["direct_histories_failing"] = len(dh)
     for name, cls, m in dh:
         sg = direct_sig(name, cls)
